@@ -292,6 +292,7 @@ type req struct {
 	T      int64  `json:"t,omitempty"`
 	Ticket bool   `json:"ticket,omitempty"`
 	A      int    `json:"a,omitempty"`
+	F      int    `json:"f,omitempty"` // sign: form of the ReqSignRawTx (all name the stored key by address; same model request)
 }
 
 func pwT(i int) string { return fmt.Sprintf("(p %d%%nat)", i) }
@@ -336,7 +337,9 @@ func (q req) String() string {
 		return fmt.Sprintf("SetPasswd(%q,%q)", pwtab[q.P], pwtab[q.P2])
 	case "seed", "saveseed":
 		return fmt.Sprintf("%s(%q)", q.K, pwtab[q.P])
-	case "dump", "sign", "apipriv":
+	case "sign":
+		return fmt.Sprintf("sign(acct %d,%s)", q.A, signForms[q.F%len(signForms)])
+	case "dump", "apipriv":
 		return fmt.Sprintf("%s(acct %d)", q.K, q.A)
 	}
 	return q.K
@@ -391,6 +394,61 @@ func (w *world) unsignedTx() string {
 	return hex.EncodeToString(types.Encode(tx))
 }
 
+// forms of ReqSignRawTx that name the stored key by address (no Privkey in the
+// request): a single transaction; one with Fee / NewToAddr / Expire set; a
+// two-transaction group signed as a whole (Index 0) or one member only (Index 1)
+var signForms = []string{"plain", "fee+to+expire", "group-all", "group-1"}
+
+func (w *world) signReq(a, form int) *types.ReqSignRawTx {
+	q := &types.ReqSignRawTx{Addr: w.addrs[a], TxHex: w.unsignedTx(), Expire: "0"}
+	switch form % len(signForms) {
+	case 1:
+		q.Fee, q.NewToAddr, q.Expire = 2000000, w.addrs[1], "120s"
+	case 2, 3:
+		t1 := &types.Transaction{Execer: []byte("none"), Payload: []byte("c38-1"), Fee: 10000000, To: w.addrs[0], Nonce: 381}
+		t2 := &types.Transaction{Execer: []byte("none"), Payload: []byte("c38-2"), Fee: 10000000, To: w.addrs[1], Nonce: 382}
+		g, err := types.CreateTxGroup([]*types.Transaction{t1, t2}, 100000)
+		if err != nil {
+			panic(err)
+		}
+		q.TxHex = hex.EncodeToString(types.Encode(g.Tx()))
+		if form%len(signForms) == 3 {
+			q.Index = 1
+		}
+	}
+	return q
+}
+
+// signedBy: every signature in the reply is valid, at least one is there, and
+// all are made with the key of account a
+func (w *world) signedBy(reply string, a int) bool {
+	raw, err := hex.DecodeString(reply)
+	if err != nil {
+		return false
+	}
+	var tx types.Transaction
+	if types.Decode(raw, &tx) != nil {
+		return false
+	}
+	members := []*types.Transaction{&tx}
+	if g, err := tx.GetTxGroup(); err != nil {
+		return false
+	} else if g != nil {
+		members = g.Txs
+	}
+	n := 0
+	for _, m := range members {
+		if m.Signature == nil {
+			continue
+		}
+		if !m.CheckSign(0) || address.PubKeyToAddr(0, m.Signature.Pubkey) != w.addrs[a] {
+			return false
+		}
+		n++
+	}
+	return n > 0
+}
+
 func (w *world) exec(q req) (out res) {
 	defer func() {
 		if x := recover(); x != nil {
@@ -438,19 +496,11 @@ func (w *world) exec(q req) (out res) {
 		}
 		return rWrong
 	case "sign":
-		s, err := wl.ProcSignRawTx(&types.ReqSignRawTx{Addr: w.addrs[q.A], TxHex: w.unsignedTx(), Expire: "0"})
+		s, err := wl.ProcSignRawTx(w.signReq(q.A, q.F))
 		if err != nil {
 			return rErr(err)
 		}
-		raw, err := hex.DecodeString(s)
-		if err != nil {
-			return rWrong
-		}
-		var tx types.Transaction
-		if types.Decode(raw, &tx) != nil || tx.Signature == nil || !tx.CheckSign(0) {
-			return rWrong
-		}
-		if address.PubKeyToAddr(0, tx.Signature.Pubkey) == w.addrs[q.A] {
+		if w.signedBy(s, q.A) {
 			return rSecret
 		}
 		return rWrong
@@ -501,6 +551,7 @@ type hist struct {
 	secrets  int
 	sawTrans int // spinning observer completed a read during a SetPasswd on a locked wallet
 	timedOut int // observations made after a timeout expired
+	crossed  int // ... after a battery request had handed out a secret inside that window
 	drift    time.Duration
 }
 
@@ -782,7 +833,7 @@ func (h *hist) secretReq(allowImport bool) req {
 	case 2:
 		return req{K: "seed", P: h.anyPw(75)}
 	case 3:
-		return req{K: "sign", A: h.r.Intn(poolSize)}
+		return req{K: "sign", A: h.r.Intn(poolSize), F: h.r.Intn(len(signForms))}
 	case 4:
 		return req{K: "send"}
 	case 5:
@@ -854,24 +905,55 @@ func genSeq(o *hlib.Out, in caseIn, r *hlib.Rng) {
 	h.emit(o, "seq", h.secrets > 0, in)
 }
 
-// timed histories: real timers of 1-2 s; observations stay >= 450 ms away from every deadline
+// timed histories: real timers of 1-2 s; observations stay >= 450 ms away from every deadline.
+//
+// Each case fixes a battery of secret-returning requests (SignRawTx by address in
+// one or two forms, DumpPrivkey, for one or two accounts; GetSeed; SendToAddress;
+// a status read) and asks the SAME battery after every unlock (while the window
+// is open), after every passage of time (before / beyond the deadline), after
+// every explicit lock, after every failed or successful re-unlock and after
+// every password change: whatever a request handed out inside the window must be
+// refused for the same account once the window is closed.  The first round is
+// always a right-password unlock with a 1-2 s timeout.
 func genTimed(o *hlib.Out, in caseIn, r0 *hlib.Rng) {
 	for attempt := 0; attempt < 4; attempt++ {
 		r := hlib.NewRng(in.CSeed + uint64(attempt)*7919)
 		h := newHist(r)
-		h.setup(r.Intn(nValidPw), r.Range(1, 2))
+		na := r.Range(1, 2)
+		h.setup(r.Intn(nValidPw), na)
+		accts := []int{0}
+		if na > 1 {
+			accts = append(accts, na-1)
+		}
+		var bat []req
+		for _, a := range accts {
+			bat = append(bat, req{K: "sign", A: a, F: r.Intn(len(signForms))}, req{K: "dump", A: a})
+		}
+		if r.Chance(1, 2) { // account 0 in a second, different form
+			bat = append(bat, req{K: "sign", A: 0, F: (bat[0].F + 1 + r.Intn(len(signForms)-1)) % len(signForms)})
+		}
+		bat = append(bat, req{K: "seed"}, req{K: "send"})
+		for i := len(bat) - 1; i > 0; i-- {
+			j := r.Intn(i + 1)
+			bat[i], bat[j] = bat[j], bat[i]
+		}
 		h.op(req{K: "lock"})
 		h.start = time.Now()
 		h.clock = 0
 		deadline := int64(-1) // planned ns; -1 = no timer pending
 		rounds := r.Range(1, 3)
-		observe := func() {
+		open := false // a battery request handed out a secret since the last timed unlock
+		battery := func() {
 			h.op(h.observerReq())
-			if r.Chance(2, 3) {
-				h.op(req{K: "dump", A: 0})
+			before := h.secrets
+			for _, q := range bat {
+				if q.K == "seed" {
+					q.P = h.rightPw()
+				}
+				h.op(q)
 			}
-			if r.Chance(1, 4) {
-				h.op(req{K: "seed", P: h.rightPw()})
+			if h.secrets > before && deadline >= 0 {
+				open = true
 			}
 		}
 		lateness := func() {
@@ -882,6 +964,10 @@ func genTimed(o *hlib.Out, in caseIn, r0 *hlib.Rng) {
 		for k := 0; k < rounds; k++ {
 			T := hlib.Pick(r, []int64{1, 1, 1, 2, 2, 2, 0, 0, -1, 9223372037, -9223372037})
 			q := req{K: "unlock", P: h.anyPw(85), T: T, Ticket: r.Chance(1, 10)}
+			if k == 0 {
+				T = hlib.Pick(r, []int64{1, 1, 2})
+				q = req{K: "unlock", P: h.rightPw(), T: T}
+			}
 			out := h.op(q)
 			lateness()
 			if out.coq == "ROk" && !q.Ticket && T != 0 {
@@ -896,7 +982,8 @@ func genTimed(o *hlib.Out, in caseIn, r0 *hlib.Rng) {
 			}
 			observeNow := T == 1 || T == 2 || T == 0 || T == -9223372037
 			if observeNow {
-				observe()
+				battery()
+				lateness()
 			}
 			// a few moves before / after the deadline
 			moves := r.Range(1, 3)
@@ -909,16 +996,21 @@ func genTimed(o *hlib.Out, in caseIn, r0 *hlib.Rng) {
 				case deadline >= 0:
 					d = deadline + margin - h.clock // go beyond it
 					h.timedOut++
+					if open {
+						h.crossed++
+					}
 				default:
 					d = int64(50+r.Intn(150)) * int64(time.Millisecond)
 				}
 				h.pass(time.Duration(d))
 				if deadline >= 0 && h.clock > deadline {
 					deadline = -1
+					open = false
 				}
-				observe()
+				battery()
 				lateness()
-				switch r.Intn(6) {
+				acted := true
+				switch r.Intn(8) {
 				case 0:
 					h.op(req{K: "lock"})
 				case 1:
@@ -928,6 +1020,15 @@ func genTimed(o *hlib.Out, in caseIn, r0 *hlib.Rng) {
 					}
 				case 2:
 					h.op(h.setpwReq(50))
+				case 3, 4:
+					// a re-unlock that fails (other password), asking for a longer window
+					h.op(req{K: "unlock", P: h.otherPw(), T: hlib.Pick(r, []int64{2, 2, 3600, 0})})
+				default:
+					acted = false
+				}
+				if acted {
+					lateness()
+					battery()
 				}
 				lateness()
 			}
@@ -936,7 +1037,7 @@ func genTimed(o *hlib.Out, in caseIn, r0 *hlib.Rng) {
 		if h.drift > 200*time.Millisecond {
 			continue // the machine was too slow for the planned clock: generate again
 		}
-		h.emit(o, "timed", h.timedOut > 0, in)
+		h.emit(o, "timed", h.crossed > 0, in)
 		return
 	}
 	panic("timed case: the planned clock could not be kept in 4 attempts")
